@@ -97,10 +97,8 @@ Section Req.
   Ltac leaf := cbn [fst snd log_req emit ev rec_add set_tbl set_cl add_aband r_cl r_tbl r_aband r_tr];
                rewrite ?(mc_cl sc), ?(mc_tbl sc), ?(mc_ab sc), ?(mc_tr sc).
 
-  Lemma kubectl_apply_req s l :
-    let i := l_id l in
-    let s2 := fst (kubectl_apply sc s l) in
-    let r := snd (kubectl_apply sc s l) in
+  (* one attempt (a server-side PATCH or a client-side apply) on object i: at most one request *)
+  Definition attempt_req (i : id) (s s2 : rst) (r : option N) : Prop :=
     r_tbl s2 = r_tbl s /\
     ( r_tr s2 = r_tr s /\ r_cl s2 = r_cl s
       \/ (exists b d m st, r_tr s2 = IReq (RPatch i b d) false m st :: r_tr s /\ r_cl s2 = r_cl s /\ r = None)
@@ -113,50 +111,77 @@ Section Req.
             \/ (exists b m st, r_tr s2 = IReq (RPatch i b false) true m st :: r_tr s) /\
                (exists n nu, r_cl s2 = put_cl (r_cl s) n nu /\ c_id n = i /\ c_owner n = OOurs /\
                              (forall c, fo (r_cl s) i = Some c -> u = c_uid c /\ c_uid n = c_uid c)) )) ).
+
+  Lemma ssa_patch_req s l n :
+    attempt_req (l_id l) s (fst (ssa_patch sc s l n)) (ssa_result (snd (ssa_patch sc s l n))).
   Proof.
-    cbv zeta. unfold kubectl_apply. cbv zeta.
+    unfold attempt_req, ssa_patch. cbv zeta.
+    destruct (faulted sc (FStream (l_id l) n)); leaf.
+    { split; [reflexivity|]. right; left. repeat eexists. }
+    destruct (faulted sc (FApply (l_id l))); leaf.
+    { split; [reflexivity|]. right; left. repeat eexists. }
+    destruct (find_obj (objs (r_cl s)) (l_id l)) as [c|] eqn:EF;
+      destruct (match o_dry (sc_opts sc) with DServer => true | _ => false end); leaf.
+    - split; [reflexivity|]. right; right; right. exists (c_uid c). split; [reflexivity|]. left.
+      split; [repeat eexists|]. split; [reflexivity|].
+      unfold fo. intros c' E. rewrite EF in E. injection E as <-. reflexivity.
+    - split; [reflexivity|]. right; right; right. exists (c_uid c). split; [reflexivity|]. right; right.
+      split; [repeat eexists|]. eexists _, _. split; [reflexivity|]. split; [reflexivity|]. split; [reflexivity|].
+      unfold fo. intros c' E. rewrite EF in E. injection E as <-. split; reflexivity.
+    - split; [reflexivity|]. right; right; right. eexists. split; [reflexivity|]. left.
+      split; [repeat eexists|]. split; [reflexivity|].
+      unfold fo. intros c' E. rewrite EF in E. discriminate.
+    - split; [reflexivity|]. right; right; right. eexists. split; [reflexivity|]. right; right.
+      split; [repeat eexists|]. eexists _, _. split; [reflexivity|]. split; [reflexivity|]. split; [reflexivity|].
+      unfold fo. intros c' E. rewrite EF in E. discriminate.
+  Qed.
+
+  Lemma csa_apply_req s l :
+    attempt_req (l_id l) s (fst (csa_apply sc s l)) (snd (csa_apply sc s l)).
+  Proof.
+    unfold attempt_req, csa_apply. cbv zeta.
     pose proof (same4_get_obj sc s (l_id l)) as G. pose proof (get_obj_found sc s (l_id l)) as GF.
     destruct (get_obj sc s (l_id l)) as [s1 g]. cbn [fst snd] in G, GF. destruct G as [G1 [G2 [G3 G4]]].
-    unfold ssa_mode. destruct (o_dry (sc_opts sc)) eqn:ED; cbn [is_dry].
-    - (* no dry-run *)
-      destruct (o_ssa (sc_opts sc)).
-      + destruct (faulted sc (FApply (l_id l))); leaf.
-        { split; [reflexivity|]. right; left. repeat eexists. }
-        destruct (find_obj (objs (r_cl s)) (l_id l)) as [c|] eqn:EF; leaf.
-        * split; [reflexivity|]. right; right; right. exists (c_uid c). split; [reflexivity|]. right; right.
-          split; [repeat eexists|]. eexists _, _. split; [reflexivity|]. split; [reflexivity|]. split; [reflexivity|].
-          unfold fo. intros c' E. rewrite EF in E. injection E as <-. split; reflexivity.
-        * split; [reflexivity|]. right; right; right. eexists. split; [reflexivity|]. right; right.
-          split; [repeat eexists|]. eexists _, _. split; [reflexivity|]. split; [reflexivity|]. split; [reflexivity|].
-          unfold fo. intros c' E. rewrite EF in E. discriminate.
-      + destruct g as [| |c]; leaf.
-        * rewrite G1, G2, G4. split; [reflexivity|]. left. split; reflexivity.
-        * destruct (faulted sc (FApply (l_id l))); leaf; rewrite ?G1, ?G2, ?G4.
-          { split; [reflexivity|]. right; right; left. repeat eexists. }
-          split; [reflexivity|]. right; right; right. eexists. split; [reflexivity|]. right; left.
-          split; [repeat eexists|]. eexists _, _. split; [reflexivity|]. split; reflexivity.
-        * pose proof (GF c eq_refl) as EF. pose proof (find_obj_id _ _ _ EF) as EI.
-          destruct (patch_needed c l) eqn:PN; cbn [negb]; leaf.
-          2:{ rewrite G1, G2, G4. split; [reflexivity|]. left. split; reflexivity. }
-          destruct (faulted sc (FApply (l_id l))); leaf; rewrite ?G1, ?G2, ?G4.
-          { split; [reflexivity|]. right; left. repeat eexists. }
-          split; [reflexivity|]. right; right; right. exists (c_uid c). split; [reflexivity|]. right; right.
-          split; [repeat eexists|]. eexists _, _. split; [reflexivity|].
-          split; [rewrite merged_id; exact EI|]. split; [apply merged_owner|].
-          unfold fo. intros c' E. rewrite EF in E. injection E as <-. split; [reflexivity|apply merged_uid].
-    - (* client dry-run: no request *)
+    destruct (is_dry (o_dry (sc_opts sc))) eqn:ED.
+    - (* dry-run: no request *)
       destruct g as [| |c]; leaf; rewrite ?G1, ?G2, ?G4; try (split; [reflexivity|]; left; split; reflexivity).
       destruct (negb (patch_needed c l)); leaf; rewrite ?G1, ?G2, ?G4; (split; [reflexivity|]; left; split; reflexivity).
-    - (* server dry-run *)
-      destruct (faulted sc (FApply (l_id l))); leaf.
-      { split; [reflexivity|]. right; left. repeat eexists. }
-      destruct (find_obj (objs (r_cl s)) (l_id l)) as [c|] eqn:EF; leaf.
-      + split; [reflexivity|]. right; right; right. exists (c_uid c). split; [reflexivity|]. left.
-        split; [repeat eexists|]. split; [reflexivity|].
-        unfold fo. intros c' E. rewrite EF in E. injection E as <-. reflexivity.
-      + split; [reflexivity|]. right; right; right. eexists. split; [reflexivity|]. left.
-        split; [repeat eexists|]. split; [reflexivity|].
-        unfold fo. intros c' E. rewrite EF in E. discriminate.
+    - destruct g as [| |c]; leaf.
+      * rewrite G1, G2, G4. split; [reflexivity|]. left. split; reflexivity.
+      * destruct (faulted sc (FApply (l_id l))); leaf; rewrite ?G1, ?G2, ?G4.
+        { split; [reflexivity|]. right; right; left. repeat eexists. }
+        split; [reflexivity|]. right; right; right. eexists. split; [reflexivity|]. right; left.
+        split; [repeat eexists|]. eexists _, _. split; [reflexivity|]. split; reflexivity.
+      * pose proof (GF c eq_refl) as EF. pose proof (find_obj_id _ _ _ EF) as EI.
+        destruct (patch_needed c l) eqn:PN; cbn [negb]; leaf.
+        2:{ rewrite G1, G2, G4. split; [reflexivity|]. left. split; reflexivity. }
+        destruct (faulted sc (FApply (l_id l))); leaf; rewrite ?G1, ?G2, ?G4.
+        { split; [reflexivity|]. right; left. repeat eexists. }
+        split; [reflexivity|]. right; right; right. exists (c_uid c). split; [reflexivity|]. right; right.
+        split; [repeat eexists|]. eexists _, _. split; [reflexivity|].
+        split; [rewrite merged_id; exact EI|]. split; [apply merged_owner|].
+        unfold fo. intros c' E. rewrite EF in E. injection E as <-. split; [reflexivity|apply merged_uid].
+  Qed.
+
+  (* the state after a rejected apply PATCH of object i *)
+  Definition rejected_patch (s : rst) (i : id) (d : bool) : rst :=
+    log_req (maybe_cancel sc s i) (RPatch i true d) false.
+
+  (* the whole apply: one attempt, or (APIService fallback) a rejected apply PATCH and then one attempt *)
+  Lemma kubectl_apply_req s l :
+    let i := l_id l in
+    let s2 := fst (kubectl_apply sc s l) in
+    let r := snd (kubectl_apply sc s l) in
+    attempt_req i s s2 r \/ exists d, attempt_req i (rejected_patch s i d) s2 r.
+  Proof.
+    cbv zeta.
+    destruct (kubectl_apply_cases sc l s) as [[_ ->]|[[_ [-> _]]|[_ [E [_ [_ ->]]]]]].
+    - left. apply csa_apply_req.
+    - left. cbn [fst snd]. apply ssa_patch_req.
+    - right. exists (ssa_dflag sc). unfold rejected_patch. rewrite <- (ssa_patch_stream sc l s 0 E).
+      destruct (apisvc_fallback_cases sc l (fst (ssa_patch sc s l 0))) as [[_ ->]|[_ ->]].
+      + cbn [fst snd]. apply ssa_patch_req.
+      + apply csa_apply_req.
   Qed.
 End Req.
 
@@ -412,45 +437,27 @@ Section T3.
   Qed.
 
   (* ---- apply ---- *)
-  Lemma t_apply_one g td s p : local_ok pl p -> NoDup (p_id p :: td) ->
-    Inv2 (p_id p :: td) s -> Inv2 td (apply_one sc pl g s p).
+  (* one attempt on object i from a state in which i has not been applied yet, followed by the
+     result event and the record *)
+  Lemma t_attempt g td (i : id) s1 s2 r :
+    In i aids -> ~ In i td -> Inv2 (i :: td) s1 -> ~ In i (appS s1) ->
+    (forall x, findc (curS s1) i = Some x -> pol_ok (o_policy (sc_opts sc)) (snd (fst x)) = true) ->
+    attempt_req i s1 s2 r ->
+    Inv2 td (match r with
+             | Some u => rec_add (ev s2 (EApply g i AOk)) i SApply ASucceeded u harness_gen
+             | None => rec_add (ev s2 (EApply g i AFail)) i SApply AFailed 0%N 0%Z
+             end).
   Proof.
-    intros [Hin HL] ND I0. unfold apply_one. destruct (p_local p) as [l|] eqn:EL.
-    2:{ eapply Inv2_weaken; [|exact I0]. intros x Hx. right. exact Hx. }
-    pose proof (HL l eq_refl) as EI. set (i := p_id p) in *.
-    assert (NIA : ~ In i (appS s)).
-    { intros X. destruct (I_a _ _ _ _ _ I0 i X) as [_ Q]. apply Q. left. reflexivity. }
-    assert (NTD : ~ In i td) by (inversion ND; assumption).
+    intros Hin NTD I1 NIA1 AK [KT K].
     assert (INC : incl td (i :: td)) by (intros x Hx; right; exact Hx).
-    destruct (negb (kind_known sc (r_known s) i)).
-    { (* no REST mapping: only the record of i changes *)
-      apply (Inv2_tbl sc c0 pl (i :: td) td s _ i [IEv (EApply g i AFail)]); try assumption.
-      - reflexivity.
-      - reflexivity.
-      - constructor; [exact I|constructor].
-      - intros j Hj. apply (tv_other s _ (mkRec i SApply AFailed RPending 0%N 0%Z)); [reflexivity|exact Hj]. }
-    pose proof (same4_policy_apply_filter sc s i) as P.
-    pose proof (policy_apply_filter_spec sc s i) as PS. cbv zeta in PS.
-    destruct (policy_apply_filter sc s i) as [s1 f1]. cbn [fst snd] in P, PS. destruct P as [P1 [P2 [_ P4]]].
-    assert (I1 : Inv2 (i :: td) s1) by (eapply Inv2_same; eassumption).
-    assert (NIA1 : ~ In i (appS s1)) by (rewrite P4; exact NIA).
-    (* no request: only the record of i changes *)
     assert (SK : forall s2 e a u gg, r_cl s2 = r_cl s1 -> r_tbl s2 = r_tbl s1 -> r_tr s2 = r_tr s1 ->
               Inv2 td (rec_add (ev s2 e) i SApply a u gg)).
-    { intros s2 e a u gg E1 E2 E3.
+    { intros s3 e a u gg E1 E2 E3.
       apply (Inv2_tbl sc c0 pl (i :: td) td s1 _ i [IEv e]); try assumption.
       - cbn. rewrite E1. reflexivity.
       - cbn. rewrite E3. reflexivity.
       - constructor; [exact I|constructor].
       - intros j Hj. apply (tv_other s1 _ (mkRec i SApply a RPending u gg)); [cbn; rewrite E2; reflexivity|exact Hj]. }
-    destruct f1; [|apply SK; reflexivity|apply SK; reflexivity].
-    destruct (dep_filter sc pl (r_tbl s1) SApply (g_deps (pl_graph pl) i)); [|apply SK; reflexivity|apply SK; reflexivity].
-    assert (HP : forall c, find_obj (objs (r_cl s1)) i = Some c -> can_apply sc (c_owner c) = true).
-    { rewrite P1. intros c Hc. destruct (proj1 PS eq_refl) as [A|[_ A]]; [apply can_apply_adopt_all; exact A|].
-      rewrite Hc in A. exact A. }
-    pose proof (aok_from_coh sc _ _ i (I_c _ _ _ _ _ I1) HP) as AK.
-    pose proof (kubectl_apply_req sc s1 l) as K. cbv zeta in K. rewrite EI in K. fold i in K.
-    destruct (kubectl_apply sc s1 l) as [s2 r]. cbn [fst snd] in K. destruct K as [KT K].
     (* the record written afterwards *)
     assert (TVO : forall e a u gg j, j <> i -> tv (rec_add (ev s2 e) i SApply a u gg) j = tv s1 j).
     { intros e a u gg j Hj. apply (tv_other s1 _ (mkRec i SApply a RPending u gg)); [cbn; rewrite KT; reflexivity|exact Hj]. }
@@ -531,6 +538,82 @@ Section T3.
         * intros _ x Hx Hn. rewrite RP, findc_cons_drop, Nat.eqb_refl in Hx. injection Hx as <-. cbn [snd] in *.
           rewrite TVS. destruct (U0 Hn) as [c [Ec E]]. rewrite E, (proj1 (HU c Ec)). reflexivity.
         * intros _. split; assumption.
+  Qed.
+
+  (* a rejected apply PATCH of an object that has not been applied yet changes nothing the invariant reads *)
+  Lemma t_rejected_patch td (i : id) s1 d :
+    In i aids -> Inv2 (i :: td) s1 -> ~ In i (appS s1) ->
+    (forall x, findc (curS s1) i = Some x -> pol_ok (o_policy (sc_opts sc)) (snd (fst x)) = true) ->
+    let s1' := rejected_patch sc s1 i d in
+    Inv2 (i :: td) s1' /\ ~ In i (appS s1') /\ curS s1' = curS s1.
+  Proof.
+    intros Hin I1 NIA1 AK. cbv zeta. unfold rejected_patch.
+    assert (ET : r_tr (log_req (maybe_cancel sc s1 i) (RPatch i true d) false) =
+                 [] ++ IReq (RPatch i true d) false (managed (r_cl (maybe_cancel sc s1 i))) (stored (r_cl (maybe_cancel sc s1 i))) :: r_tr s1).
+    { cbn. rewrite (mc_tr sc). reflexivity. }
+    assert (EC : r_cl (log_req (maybe_cancel sc s1 i) (RPatch i true d) false) = r_cl s1).
+    { cbn. apply (mc_cl sc). }
+    assert (ETB : r_tbl (log_req (maybe_cancel sc s1 i) (RPatch i true d) false) = r_tbl s1).
+    { cbn. apply (mc_tbl sc). }
+    pose proof (I_c _ _ _ _ _ I1) as C1. pose proof (I_u _ _ _ _ _ I1) as U1.
+    split; [|split].
+    - eapply (Inv2_target sc c0 pl (i :: td) (i :: td) s1 _ i (RPatch i true d) false _ _ [] eq_refl ET); try assumption.
+      + constructor.
+      + intros j _. rewrite EC. reflexivity.
+      + intros j _. unfold tv. rewrite ETB. reflexivity.
+      + intros x Hx. exact Hx.
+      + split; [exact AK|exact I].
+      + rewrite EC. exact C1.
+      + intros Ha c x Hc Hx. rewrite EC in Hc. cbn in Hx. eapply U1; eassumption.
+      + cbn. intros X. contradiction.
+      + cbn. intros X. contradiction.
+    - rewrite ET. cbn [app]. rewrite appR_cons. cbn. exact NIA1.
+    - rewrite ET. cbn [app]. rewrite curR_cons. reflexivity.
+  Qed.
+
+  Lemma t_apply_one g td s p : local_ok pl p -> NoDup (p_id p :: td) ->
+    Inv2 (p_id p :: td) s -> Inv2 td (apply_one sc pl g s p).
+  Proof.
+    intros [Hin HL] ND I0. unfold apply_one. destruct (p_local p) as [l|] eqn:EL.
+    2:{ eapply Inv2_weaken; [|exact I0]. intros x Hx. right. exact Hx. }
+    pose proof (HL l eq_refl) as EI. set (i := p_id p) in *.
+    assert (NIA : ~ In i (appS s)).
+    { intros X. destruct (I_a _ _ _ _ _ I0 i X) as [_ Q]. apply Q. left. reflexivity. }
+    assert (NTD : ~ In i td) by (inversion ND; assumption).
+    assert (INC : incl td (i :: td)) by (intros x Hx; right; exact Hx).
+    destruct (negb (kind_known sc (r_known s) i)).
+    { (* no REST mapping: only the record of i changes *)
+      apply (Inv2_tbl sc c0 pl (i :: td) td s _ i [IEv (EApply g i AFail)]); try assumption.
+      - reflexivity.
+      - reflexivity.
+      - constructor; [exact I|constructor].
+      - intros j Hj. apply (tv_other s _ (mkRec i SApply AFailed RPending 0%N 0%Z)); [reflexivity|exact Hj]. }
+    pose proof (same4_policy_apply_filter sc s i) as P.
+    pose proof (policy_apply_filter_spec sc s i) as PS. cbv zeta in PS.
+    destruct (policy_apply_filter sc s i) as [s1 f1]. cbn [fst snd] in P, PS. destruct P as [P1 [P2 [_ P4]]].
+    assert (I1 : Inv2 (i :: td) s1) by (eapply Inv2_same; eassumption).
+    assert (NIA1 : ~ In i (appS s1)) by (rewrite P4; exact NIA).
+    (* no request: only the record of i changes *)
+    assert (SK : forall s2 e a u gg, r_cl s2 = r_cl s1 -> r_tbl s2 = r_tbl s1 -> r_tr s2 = r_tr s1 ->
+              Inv2 td (rec_add (ev s2 e) i SApply a u gg)).
+    { intros s2 e a u gg E1 E2 E3.
+      apply (Inv2_tbl sc c0 pl (i :: td) td s1 _ i [IEv e]); try assumption.
+      - cbn. rewrite E1. reflexivity.
+      - cbn. rewrite E3. reflexivity.
+      - constructor; [exact I|constructor].
+      - intros j Hj. apply (tv_other s1 _ (mkRec i SApply a RPending u gg)); [cbn; rewrite E2; reflexivity|exact Hj]. }
+    destruct f1; [|apply SK; reflexivity|apply SK; reflexivity].
+    destruct (dep_filter sc pl (r_tbl s1) SApply (g_deps (pl_graph pl) i)); [|apply SK; reflexivity|apply SK; reflexivity].
+    assert (HP : forall c, find_obj (objs (r_cl s1)) i = Some c -> can_apply sc (c_owner c) = true).
+    { rewrite P1. intros c Hc. destruct (proj1 PS eq_refl) as [A|[_ A]]; [apply can_apply_adopt_all; exact A|].
+      rewrite Hc in A. exact A. }
+    pose proof (aok_from_coh sc _ _ i (I_c _ _ _ _ _ I1) HP) as AK.
+    pose proof (kubectl_apply_req sc s1 l) as K. cbv zeta in K. rewrite EI in K. fold i in K.
+    destruct (kubectl_apply sc s1 l) as [s2 r]. cbn [fst snd] in K.
+    destruct K as [K|[d K]].
+    - exact (t_attempt g td i s1 s2 r Hin NTD I1 NIA1 AK K).
+    - destruct (t_rejected_patch td i s1 d Hin I1 NIA1 AK) as [I1' [NIA1' EC']].
+      refine (t_attempt g td i _ s2 r Hin NTD I1' NIA1' _ K). rewrite EC'. exact AK.
   Qed.
 
   Lemma t_apply_task g layer : Forall (local_ok pl) layer -> forall td s,
